@@ -25,7 +25,8 @@ for d in sorted(glob.glob(os.path.join(VERIF, "seeded", "*", ""))):
 head = """Round 1 (ids -a, -b): two changes per property, "needs something specific to manifest". Round 2 (ids -c, -d): the agents
 were additionally given the one-line summaries of the earlier ideas for their property and asked for *history- or
 configuration-dependent* changes. Rounds 3-7 (ids -e ... -n): same, with all earlier ideas listed; rounds 5-7 asked for one
-input-triggered and one usage-triggered change per property; round 8 (ids -o) asked for one change per property of either kind.
+input-triggered and one usage-triggered change per property; rounds 8 and 9 (ids -o, -p) asked for one change per property of either kind (the C15 agent of round 9 found nothing new
+and delivered nothing).
 Two agents of round 7 delivered only one change (C16-n, C19-n do not exist) rather than a weak second one. No agent ever saw anything from `/verif`. %d changes in total; all are
 caught by the quick tier of the responsible check now.
 %d of them were **missed by the version of the check that existed when the change arrived** or caught by it only by luck (%s).
